@@ -77,6 +77,12 @@ func vfDescribeSpec(s *vfSpec, depth int) string {
 	if s.Loop > 0 {
 		d += "loop "
 	}
+	if s.SpawnOnKill {
+		d += "spawn-on-kill "
+	}
+	if s.SpawnOnChildDead {
+		d += "spawn-on-child-dead "
+	}
 	if len(s.Subs) > 0 {
 		d += "subs "
 	}
@@ -129,12 +135,21 @@ func vfGenHistory(rng *verifrt.Rand, emph string) *vfHistory {
 		}
 		if rng.Chance(30) || emph == "kill" {
 			s.Loop = 200 * time.Millisecond
+			if rng.Chance(60) {
+				s.Once = time.Millisecond // fired one-shot entries sit next to the live Loop job when the owner dies
+			}
 		}
 		if rng.Chance(30) || emph == "kill" {
 			s.Subs = []int{rng.Intn(2)}
 		}
 		if rng.Chance(15) || (emph == "life" && rng.Chance(40)) {
 			s.BecomeAt = 1 + rng.Intn(3)
+		}
+		if rng.Chance(12) {
+			s.SpawnOnKill = true
+		}
+		if rng.Chance(8) {
+			s.SpawnOnChildDead = true
 		}
 		if emph == "life" && rng.Chance(15) {
 			s.FailLaunchInc = 2 // the second incarnation fails in OnLaunch again
@@ -355,6 +370,7 @@ func vfRunHistory(h *vfHistory, res *vfCellResult) {
 			return
 		}
 	}
+	holdRef, _ := w.spawnTop(&vfSpec{Name: "zhold", LateObserver: true})
 	w.wait()
 	zombies := map[string]bool{}
 	for _, s := range h.Steps {
@@ -501,6 +517,68 @@ func vfRunHistory(h *vfHistory, res *vfCellResult) {
 		fmt.Fprintf(&sb, "%s=%d,", k, hist[k])
 	}
 	res.sig = sb.String()
+	// ---- stopping phase (C03): sends that race System.Stop. "zhold" is held inside a handler, so the root stays in
+	// the killing state and the late observer under zhold stays alive and subscribed; every user message sent now
+	// must still end processed or dead-lettered exactly once, whatever way its reference was obtained.
+	if holdRef != nil {
+		gate := newVfGate()
+		w.sys.Tell(holdRef, &vfCmd{ID: w.newID(), Op: "gate", Arg: gate})
+		<-gate.entered
+		stopErr := make(chan error, 1)
+		go func() { stopErr <- w.sys.Stop() }()
+		w.wait()
+		w.stopping.Store(true)
+		type sp struct {
+			id        int
+			via, path string
+		}
+		var sps []sp
+		vias := []string{"actorof", "clone", "parse"}
+		for i, n := range names {
+			if n == "zhold" || strings.HasPrefix(n, "first:") {
+				continue
+			}
+			r, via := w.refVia(n, vias[i%3])
+			if r == nil {
+				continue
+			}
+			id := w.newID()
+			sps = append(sps, sp{id, via, r.GetPath()})
+			w.sys.Tell(r, &vfCmd{ID: id, Op: "noop"})
+		}
+		if g, err := w.sys.ParseRef(w.sys.Ref().GetAddress() + "/never/stopping"); err == nil {
+			id := w.newID()
+			sps = append(sps, sp{id, "never-existed", g.GetPath()})
+			w.sys.Tell(g, &vfCmd{ID: id, Op: "noop"})
+		}
+		w.wait()
+		lg := w.snapshot()
+		for _, x := range sps {
+			if w.wasZombie(x.path, zombies) {
+				continue
+			}
+			proc, dl := 0, 0
+			for _, e := range lg {
+				if e.ID == x.id && e.Kind == "recv" && e.Msg == "U" {
+					proc++
+				}
+				if e.ID == x.id && e.Kind == "obs2" && e.Msg == "dl2:U" {
+					dl++
+				}
+			}
+			if proc+dl != 1 {
+				add("c03-message-lost-while-stopping", "via="+x.via, "message #%d sent to %s (ref via %s) while System.Stop was in progress (root in killing state, a dead-letter subscriber still alive): processed %d times, dead-lettered %d times, want exactly one fate", x.id, x.path, x.via, proc, dl)
+			}
+		}
+		close(gate.release)
+		err := <-stopErr
+		w.stopped.Store(true)
+		w.wait()
+		if err != nil {
+			add("c07-stop-error", "histories", "Stop returned %v", err)
+		}
+		return
+	}
 	if err := w.stop(); err != nil {
 		add("c07-stop-error", "histories", "Stop returned %v", err)
 	}
